@@ -11,6 +11,42 @@ TRUST = ('CPython ast parses what the interpreter runs; no exec/eval/metaclasses
          'geometry is assumed, not decided.')
 
 CLAIMS = {
+    'C02': dict(
+        technique='lockstep path analysis over per-shell records; dirty=>recompute post-dominance '
+                  'on CFGs; def-use agreement of proposal accounting and exploration boundary',
+        text='Decides the bookkeeping clauses: per-shell records (bounds, points, log_l, blobs, '
+             'six statistic arrays) are created and removed together on every bounded path; every '
+             'write to an input of update_shell_info is followed by its recomputation; '
+             'update_shell_info is a pure recomputation; proposals are counted before filtering '
+             'and that count is what shell_n_sample receives; posterior() and the statistics use '
+             'the same exploration boundary; the view arrays of posterior() are sliced and '
+             'repeated together.  The estimator formulas themselves are not decided.',
+        ref='DESIGN.md section 4 C02, rules L1 L1d T3 T8 Q3 A2 A6 L5', note=TRUST),
+    'C03': dict(
+        technique='lockstep path analysis (same mask / index / source on parallel arrays), '
+                  'ordered-map and batch-axis lints on the evaluation path, copy-provenance rule',
+        text='Decides the alignment clauses: on every bounded path of add_bound / add_samples / '
+             'posterior the point, log-likelihood and blob arrays undergo the same selections, '
+             'moves, extensions (old rows first) and repeats, from aligned sources (one '
+             'evaluate_likelihood call or one index into the transfer arrays); the pool map '
+             'preserves order; no operation can drop the batch axis for a one-row batch; the '
+             'prior only ever receives a fresh copy.',
+        ref='DESIGN.md section 4 C03, rules L1-L5 S1 F5 F7', note=TRUST +
+        ' The user likelihood is assumed pure.'),
+    'C05': dict(
+        technique='effect analysis over the resolved call graph vs. key tables extracted from '
+                  'write / write_shell_update / update / resume; CFG reachability for '
+                  'layout-change => full-write',
+        text='Decides the persistence-completeness clauses: every persisted attribute that a '
+             'batch, a public setter or run() itself can modify is rewritten by the incremental '
+             'update or is followed by a full write before the next incremental one; the resume '
+             'block reads only keys the writer produces into the attribute they came from; the '
+             'bound updates cover the proposal caches and counters; the generator state is '
+             'rewritten after every batch; one seeded generator is plumbed to every object that '
+             'draws and there is no hidden nondeterminism source.  Bit-identity itself is not '
+             'decided.',
+        ref='DESIGN.md section 4 C05, rules P1 P2 P4 P5 P6 F3 F4', note=TRUST +
+        ' h5py round-trips values exactly; sklearn training is deterministic given its seed.'),
     'C06': dict(
         technique='typestate analysis on per-function CFGs (atomic-replace protocol), path '
                   'provenance by reaching definitions',
@@ -35,6 +71,84 @@ CLAIMS = {
         ref='DESIGN.md section 4 C15, rules T1 T7 R1 L1p K1 A1',
         note=TRUST),
 }
+
+CLAIMS.update({
+    'C08': dict(
+        technique='sibling-agreement (serial vs pool branch) and def-use dependency rules',
+        text='WEAK claim, structural necessary conditions only: the pool branch of '
+             'NautilusBound.sample merges exactly the counters the serial branch advances; '
+             'n_sample / n_reject describe the rows actually cached; the acceptance mask depends '
+             'on multiplicity over all members and the allocation on member volumes, paired in '
+             'order; counters are covered by update().  Uniformity and volume calibration as '
+             'distributional facts are NOT decided by static analysis.',
+        ref='DESIGN.md section 4 C08, rules A3 T8 Q1 Q2 P4', note=TRUST),
+    'C09': dict(
+        technique='writer/reader/updater table extraction and comparison; definite-assignment '
+                  'analysis of constructors against the observation interface read set',
+        text='Decides for the 8 persistable classes: reader keys are a subset of writer keys '
+             'with matching kind and guard; each key is restored into the attribute it was '
+             'written from; every attribute read by contains/sample/log_v/write/update/reset/'
+             'transform/predict is assigned on every path of compute/read/train; the classes a '
+             'reader can rebuild cover those the creating code can store; update() rewrites what '
+             'sample() mutates.',
+        ref='DESIGN.md section 4 C09, rules P1-P5', note=TRUST +
+        ' Exact array round-trip through HDF5 and the sklearn attribute sweep are trusted.'),
+    'C10': dict(
+        technique='who-may-call / who-may-write tables, CFG loop contract, def-use accounting',
+        text='Decides: n_like is written only by evaluate_likelihood (once per call, by the '
+             'length of an order-preserving image of its argument); the likelihood is only '
+             'called there; run() evaluates only inside a loop guarded by the strict test '
+             'n_like < n_like_max, at most one batch per iteration, idle iterations are pure; '
+             'sample_shell returns exactly n_batch fresh rows; the success predicate is one '
+             'conjunction over explored / per-shell minimum / n_eff and is the returned value.',
+        ref='DESIGN.md section 4 C10, rules F6 N1 T5 T8', note=TRUST),
+    'C11': dict(
+        technique='effect (write/draw) summaries closed over the call graph; control-dependence '
+                  'analysis of flag tests; rng provenance; nondeterminism lints with fixtures',
+        text='Decides: the 12 read-only accessors write no state, mutate no alias of it and draw '
+             'no random numbers (posterior only under equal_weight); statements that depend on '
+             'verbose / filepath / vectorized / pool_l have no effect on state or generator '
+             'outside print / checkpoint / ordered-map sinks, which are themselves pure; every '
+             'rng-taking constructor, reader and reset receives the caller\'s generator; no '
+             'unseeded generator, legacy global RNG, clock, hash/set order; fitted estimators '
+             'are seeded; pool maps are ordered.',
+        ref='DESIGN.md section 4 C11, rules F1-F5', note=TRUST +
+        ' NumPy / SciPy / sklearn are deterministic given their seeds.'),
+    'C12': dict(
+        technique='control-dependence phase guards, who-may-write tables, extend-prefix lockstep '
+                  'rule, primed-before-publish path rule',
+        text='Decides: add_bound and every removal/filter of shell records happen only under '
+             '`not explored` and are followed by explored = True; explored is only ever set '
+             'True; rows are appended after the old ones; the discard setter recomputes every '
+             'shell as a pure function of stored arrays and flags, with no lazy sampling in '
+             'log_v (bounds are primed before publication); the flag is persisted by the '
+             'incremental update.',
+        ref='DESIGN.md section 4 C12, rules T6 F6 L1 L3 T3 T4 A2 A6 P4', note=TRUST),
+    'C13': dict(
+        technique='lockstep path analysis of the parallel per-ellipsoid records, '
+                  'validate-before-mutate and post-dominance (cache reset) on CFGs',
+        text='Decides: along every bounded path of split and trim the records bounds / '
+             'points_bounds / block change together (same deletion index, same number of '
+             'pushes), log_v_all is rebuilt afterwards, each pushed ellipsoid is computed from '
+             'the point set pushed at the same position, a refused operation has not touched '
+             'ellipsoids or points, and every change is followed by reset().',
+        ref='DESIGN.md section 4 C13, rules L1 L1d L6 L0 T1 T9', note=TRUST),
+    'C14': dict(
+        technique='lockstep rule on local view arrays; purity / parameter-guarded draw',
+        text='Decides: the same repeat counts are applied on axis 0 to points, log-likelihoods '
+             'and blobs, weights are rebuilt to the resampled length, nothing else reorders one '
+             'of them; posterior() writes no state and draws only under equal_weight.  The '
+             'stochastic-rounding arithmetic is not decided.',
+        ref='DESIGN.md section 4 C14, rules L5 F1', note=TRUST),
+    'C16': dict(
+        technique='abstract interpretation: interval domain with open/closed ends and float-mod '
+                  'transfer function; linear-form comparison of forward and inverse shift',
+        text='Decides closure of [0,1) under PhaseShift.transform in both directions, that only '
+             'periodic columns are stored to, that the output is a fresh copy, and that forward '
+             'and inverse are opposite shifts.  Largest-gap placement is not decided.',
+        ref='DESIGN.md section 4 C16, rule M6', note=TRUST +
+        ' float a % 1 is in [0,1) for a >= 0 and in [0,1] when a may be negative.'),
+})
 
 NOT_APPLICABLE = {
     'C04': 'Statistical correctness over seed ensembles (unbiased log Z within 1/sqrt(n_eff), '
